@@ -127,17 +127,21 @@ Section ClaimsM.
   Variable pools0 : list pool.
   Variables (Hl : N -> list aidx) (Tl : N -> N).
   Variable free0 : list cstate.
+  Variable rq0 : request.
+
+  Definition granted_for (ra : ralloc) : Prop := exists e, In e rq0 /\ ra_exact pools0 e ra = true.
 
   Definition AccM (pools : list pool) (acc : allocation) (ghost : list cstate) : Prop :=
     PoolsInv pools0 pools ghost (fun r => Hl r ++ flat_al acc r) (fun r => Tl r + sum_taken pools0 acc r)
     /\ cf_remove free0 acc = Ok ghost
-    /\ Forall (ra_wf_at pools0) acc.
+    /\ Forall (fun ra => ra_wf_at pools0 ra /\ granted_for ra) acc.
 
-  Lemma AccM_step pools acc ghost rid p p' rq ra :
-    AccM pools acc ghost -> get_at pools rid = Ok p -> claim_ok p p' rid rq ra = true ->
-    exists ghost', AccM (set_at pools rid p') (acc ++ [ra]) ghost'.
+  Lemma AccM_step pools acc ghost e p p' ra :
+    AccM pools acc ghost -> In e rq0 -> get_at pools (e_res e) = Ok p -> claim_ok p p' (e_res e) (e_req e) ra = true ->
+    exists ghost', AccM (set_at pools (e_res e) p') (acc ++ [ra]) ghost'.
   Proof.
-    intros (HA & HB & HC) Hg Hok. pose proof (claim_ok_inv _ _ _ _ _ Hok) as (Hres & _).
+    set (rid := e_res e). set (rq := e_req e).
+    intros (HA & HB & HC) Hin Hg Hok. pose proof (claim_ok_inv _ _ _ _ _ Hok) as (Hres & Ham & Hkk & _ & Hcl).
     destruct (PoolsInv_claim _ _ _ _ _ _ _ _ _ _ HA Hg Hok) as (c & c' & Gc & Rc & X).
     exists (set_at ghost rid c'). split; [|split].
     - destruct X as (L1 & L2 & X). split; auto. split; auto. intros r p0 q d Hr H0 H1 H2.
@@ -147,39 +151,55 @@ Section ClaimsM.
       replace (Tl r + (sum_taken pools0 acc r + one_sum p ra r)) with (Tl r + sum_taken pools0 acc r + one_sum p ra r) by lia.
       auto.
     - unfold cf_remove in *. rewrite cf_apply_app, HB. simpl. rewrite Hres, Gc. simpl. rewrite Rc. simpl. auto.
-    - apply Forall_app. split; auto. constructor; auto. intros p0 H0. rewrite Hres in H0.
+    - apply Forall_app. split; auto. constructor; auto.
       destruct HA as (L1 & L2 & HA). apply get_at_ok in Hg. destruct Hg as [Hlt Hnth].
       apply get_at_ok in Gc. destruct Gc as [_ Hnc].
       assert (Hr0 : rid < len pools0) by (unfold len in *; lia).
-      destruct (HA rid p0 p c Hr0 H0 Hnth Hnc) as (K & _).
-      eapply ra_wf_kind; eauto. eapply claim_ok_wf; eauto.
+      split.
+      + intros p0 H0. rewrite Hres in H0. destruct (HA rid p0 p c Hr0 H0 Hnth Hnc) as (K & _).
+        eapply ra_wf_kind; eauto. eapply claim_ok_wf; eauto.
+      + exists e. split; auto. unfold ra_exact. fold rid.
+        destruct (nth_error pools0 (nat_of rid)) as [p0|] eqn:E0; [|apply nth_error_None in E0; unfold len, nat_of in *; lia].
+        destruct (HA rid p0 p c Hr0 E0 Hnth Hnc) as (K & F & _).
+        rewrite Hres, N.eqb_refl. fold rq. rewrite <- F, Ham, N.eqb_refl. simpl.
+        rewrite <- (same_kind_sum _ _ K).
+        destruct p; try contradiction; destruct p'; try discriminate Hkk; simpl.
+        * destruct Hcl as (S1 & S2 & _). rewrite S1, S2, Ham, N.eqb_refl. auto.
+        * destruct Hcl as (S1 & S2 & _). rewrite S1, S2, Ham, N.eqb_refl. auto.
+        * destruct Hcl as (_ & _ & S3). rewrite S3. auto.
   Qed.
 
   Lemma claim_direct_AccM entries : forall pools w acc coupling pools' acc' coupling' ghost,
+    incl entries rq0 -> incl coupling rq0 ->
     AccM pools acc ghost -> claim_direct pools entries w acc coupling = Ok (pools', acc', coupling') ->
-    exists ghost', AccM pools' acc' ghost'.
+    (exists ghost', AccM pools' acc' ghost') /\ incl coupling' rq0.
   Proof.
-    induction entries as [|e rest IH]; intros pools w acc coupling pools' acc' coupling' ghost HA Hc; simpl in Hc.
-    - inversion Hc; subst; eauto.
-    - destruct (get_at pools (e_res e)) as [p| |] eqn:Eg; simpl in Hc; try discriminate.
+    induction entries as [|e rest IH]; intros pools w acc coupling pools' acc' coupling' ghost Hi1 Hi2 HA Hc; simpl in Hc.
+    - inversion Hc; subst; split; eauto.
+    - assert (Hine : In e rq0) by (apply Hi1; left; auto).
+      assert (Hi1' : incl rest rq0) by (intros x Hx; apply Hi1; right; auto).
+      destruct (get_at pools (e_res e)) as [p| |] eqn:Eg; simpl in Hc; try discriminate.
       destruct (is_groups p && is_relevant_for_coupling (e_req e)).
-      + eapply IH; eauto.
+      + eapply IH; [| |eauto|eauto]; auto. intros x Hx. apply in_app_or in Hx. destruct Hx as [Hx|[Hx|[]]]; [auto|subst; auto].
       + unfold checked in Hc. destruct (pool_claim p (e_res e) (e_req e) (frac_wit w (e_res e))) as [[p' ra]| |]; simpl in Hc; try discriminate.
         destruct (claim_ok p p' (e_res e) (e_req e) ra) eqn:Eok; try discriminate.
-        destruct (AccM_step _ _ _ _ _ _ _ _ HA Eg Eok) as [g' HA']. eapply IH; eauto.
+        destruct (AccM_step _ _ _ _ _ _ _ HA Hine Eg Eok) as [g' HA']. eapply (IH (set_at pools (e_res e) p') w (acc ++ [ra]) coupling pools' acc' coupling' g'); eauto.
   Qed.
 
   Lemma claim_coupled_AccM coupling : forall pools masks w acc pools' acc' ghost,
+    incl coupling rq0 ->
     AccM pools acc ghost -> claim_coupled pools coupling masks w acc = Ok (pools', acc') ->
     exists ghost', AccM pools' acc' ghost'.
   Proof.
-    induction coupling as [|e rest IH]; intros pools masks w acc pools' acc' ghost HA Hc; simpl in Hc.
+    induction coupling as [|e rest IH]; intros pools masks w acc pools' acc' ghost Hi HA Hc; simpl in Hc.
     - inversion Hc; subst; eauto.
     - destruct masks as [|m masks]; [inversion Hc; subst; eauto|].
+      assert (Hine : In e rq0) by (apply Hi; left; auto).
+      assert (Hi' : incl rest rq0) by (intros x Hx; apply Hi; right; auto).
       destruct (get_at pools (e_res e)) as [p| |] eqn:Eg; simpl in Hc; try discriminate.
       unfold checked in Hc. destruct (claim_with_group_mask p (e_res e) (e_req e) m (frac_wit w (e_res e))) as [[p' ra]| |]; simpl in Hc; try discriminate.
       destruct (claim_ok p p' (e_res e) (e_req e) ra) eqn:Eok; try discriminate.
-      destruct (AccM_step _ _ _ _ _ _ _ _ HA Eg Eok) as [g' HA']. eapply IH; eauto.
+      destruct (AccM_step _ _ _ _ _ _ _ HA Hine Eg Eok) as [g' HA']. eapply (IH _ _ _ _ _ _ g'); eauto.
   Qed.
 End ClaimsM.
 
@@ -232,20 +252,22 @@ Lemma claim_resources_full pools0 a live rq w pools' al free' :
   PoolsInv pools0 (a_pools a) (a_free a) (HL live) (TL pools0 live) ->
   NoDup (map e_res rq) ->
   claim_resources a rq w = Ok (pools', al) -> cf_remove (a_free a) al = Ok free' ->
-  PoolsInv pools0 pools' free' (HL (live ++ [al])) (TL pools0 (live ++ [al])) /\ Forall (ra_wf_at pools0) al.
+  PoolsInv pools0 pools' free' (HL (live ++ [al])) (TL pools0 (live ++ [al]))
+  /\ Forall (fun ra => ra_wf_at pools0 ra /\ granted_for pools0 rq ra) al.
 Proof.
   intros HP Hnd Hc Hf. unfold claim_resources in Hc.
   destruct (claim_direct (a_pools a) rq w [] []) as [[[pools acc] coupling]| |] eqn:Ed; simpl in Hc; try discriminate.
-  assert (HA0 : AccM pools0 (HL live) (TL pools0 live) (a_free a) (a_pools a) [] (a_free a)).
+  assert (HA0 : AccM pools0 (HL live) (TL pools0 live) (a_free a) rq (a_pools a) [] (a_free a)).
   { split; [|split; [reflexivity|constructor]]. eapply PoolsInv_ext; [| |exact HP]; intros r; cbv beta.
     - unfold flat_al. simpl. rewrite app_nil_r. auto.
     - unfold sum_taken, alloc_sum_amount. simpl. destruct (nth_error pools0 (nat_of r)); [destruct (pool_is_sum p)|]; rewrite ?sumN_nil; lia. }
-  destruct (claim_direct_AccM _ _ _ _ _ _ _ _ _ _ _ _ _ HA0 Ed) as [g1 HA1].
+  destruct (claim_direct_AccM pools0 (HL live) (TL pools0 live) (a_free a) rq rq _ _ _ _ _ _ _ _ (incl_refl _) (fun x (H : In x []) => match H with end) HA0 Ed) as [[g1 HA1] Hic].
   assert (Hnd1 : NoDup (map ra_res acc ++ map e_res coupling)).
   { eapply claim_direct_rids; [|eauto]. simpl. auto. }
-  assert (Fin : forall pools' acc' gh, AccM pools0 (HL live) (TL pools0 live) (a_free a) pools' acc' gh ->
+  assert (Fin : forall pools' acc' gh, AccM pools0 (HL live) (TL pools0 live) (a_free a) rq pools' acc' gh ->
                   forall al, Permutation acc' al -> NoDup (map ra_res acc') -> cf_remove (a_free a) al = Ok free' ->
-                  PoolsInv pools0 pools' free' (HL (live ++ [al])) (TL pools0 (live ++ [al])) /\ Forall (ra_wf_at pools0) al).
+                  PoolsInv pools0 pools' free' (HL (live ++ [al])) (TL pools0 (live ++ [al]))
+                  /\ Forall (fun ra => ra_wf_at pools0 ra /\ granted_for pools0 rq ra) al).
   { intros ps acc' gh (HX & HY & HZ) al' P Hn Hf'.
     assert (gh = free').
     { assert (E : cf_remove (a_free a) al' = Ok gh) by (eapply cf_apply_perm; eauto). congruence. }
@@ -259,7 +281,7 @@ Proof.
   - destruct (group_solver (a_free a) (e :: coupling) (a_weights a) true (w_mask w)) as [[[masks obj]|]| |]; cbn [bind] in Hc; try discriminate.
     destruct (claim_coupled pools (e :: coupling) masks w acc) as [[pools2 acc2]| |] eqn:Ec; cbn [bind] in Hc; try discriminate.
     inversion Hc; subst.
-    destruct (claim_coupled_AccM _ _ _ _ _ _ _ _ _ _ _ _ HA1 Ec) as [g2 HA2].
+    destruct (claim_coupled_AccM pools0 (HL live) (TL pools0 live) (a_free a) rq _ _ _ _ _ _ _ _ Hic HA1 Ec) as [g2 HA2].
     eapply Fin; eauto.
     + apply Permutation_sym, isort_perm.
     + eapply claim_coupled_rids; eauto.
@@ -332,7 +354,8 @@ Proof.
       destruct (cf_remove (a_free (s_alloc s)) al) as [free'| |] eqn:Ef; simpl in Hs; try discriminate.
       inversion Hs; subst; simpl.
       destruct (claim_resources_full pools0 (mkAllocator (a_pools (s_alloc s)) (a_free (s_alloc s)) (a_weights (s_alloc s)) yard (a_all (s_alloc s))) (s_live s) rq w pools al free') as [A B]; auto.
-      split; simpl; auto. apply Forall_app. split; auto.
+      split; simpl; auto. apply Forall_app. split; auto. constructor; auto.
+      eapply Forall_impl; [|exact B]. intros x [X _]. auto.
     + inversion Hs; subst; simpl. split; auto.
   - destruct (k <? len (s_live s)); try discriminate.
     destruct (nth_error (s_live s) (nat_of k)) as [al|] eqn:En; try discriminate.
@@ -379,10 +402,10 @@ Lemma fresh_inv p : fresh p -> PoolInv p p (concise_state p) [] 0.
 Proof.
   intros Hf. pose proof (fresh_core p Hf) as (K & F & C). split; auto. split; auto.
   destruct p; simpl in *.
-  - destruct C as [C1 C2]. repeat split; auto; try constructor.
+  - destruct C as [C1 C2]. split; [auto|]. split; [constructor|]. split; [constructor|auto].
   - destruct C as [C1 C2]. split; auto. split; [apply (gs_mirror_refl [g])|]. split; auto. eapply GsI_wf; eauto.
   - destruct C as [C1 C2]. split; auto. split; [apply gs_mirror_refl|]. split; auto. eapply GsI_wf; eauto.
-  - destruct C as [C1 C2]. split; auto. split; auto. apply sum_mirror_concise.
+  - destruct C as [C1 C2]. split; auto. split; auto. apply (sum_mirror_concise full free).
 Qed.
 
 Lemma init_full d s0 : init d = Ok s0 -> FullInv (a_pools (s_alloc s0)) s0.
@@ -461,7 +484,7 @@ Theorem concise_mirrors_thm d s0 ops s :
   init d = Ok s0 -> Forall valid_op ops -> run s0 ops = Ok s ->
   mirror_ok (a_pools (s_alloc s)) (a_free (s_alloc s)) = true.
 Proof.
-  intros Hi Hv Hr. eapply full_mirror_ok. eapply run_full; eauto. apply init_full; auto.
+  intros Hi Hv Hr. apply (full_mirror_ok (a_pools (s_alloc s0))). eapply run_full; [apply (init_full d); auto | eauto | eauto].
 Qed.
 
 (** release never panics for a live allocation (neither in the pools - whenever the pool side is Ok the
@@ -473,7 +496,7 @@ Theorem release_concise_no_panic d s0 ops s k al pools' :
   exists free', cf_add (a_free (s_alloc s)) al = Ok free'.
 Proof.
   intros Hi Hv Hr Hn Hrel.
-  assert (HF : FullInv (a_pools (s_alloc s0)) s) by (eapply run_full; eauto; apply init_full; auto).
+  assert (HF : FullInv (a_pools (s_alloc s0)) s) by (eapply run_full; [apply (init_full d); auto | eauto | eauto]).
   destruct HF as [HI HW].
   destruct (release_full (a_pools (s_alloc s0)) al (a_pools (s_alloc s)) (a_free (s_alloc s))
               (HL (remove_nth (s_live s) (nat_of k))) (TL (a_pools (s_alloc s0)) (remove_nth (s_live s) (nat_of k))) pools') as (free' & A & B); eauto.
@@ -481,4 +504,96 @@ Proof.
     + unfold HL. apply flat_live_remove; auto.
     + apply TL_remove; auto.
   - eapply Forall_nth; eauto.
+Qed.
+
+(* ---------- exact amount ---------- *)
+Lemma claim_direct_len entries : forall pools w acc coupling pools' acc' coupling',
+  claim_direct pools entries w acc coupling = Ok (pools', acc', coupling') ->
+  (length acc' + length coupling' = length acc + length coupling + length entries)%nat.
+Proof.
+  induction entries as [|e rest IH]; intros pools w acc coupling pools' acc' coupling' Hc; simpl in Hc.
+  - inversion Hc; subst. simpl. lia.
+  - destruct (get_at pools (e_res e)) as [p| |] eqn:Eg; simpl in Hc; try discriminate.
+    destruct (is_groups p && is_relevant_for_coupling (e_req e)).
+    + apply IH in Hc. rewrite app_length in Hc. simpl in *. lia.
+    + unfold checked in Hc. destruct (pool_claim p (e_res e) (e_req e) (frac_wit w (e_res e))) as [[p' ra]| |]; simpl in Hc; try discriminate.
+      destruct (claim_ok p p' (e_res e) (e_req e) ra) eqn:Eok; try discriminate.
+      apply IH in Hc. rewrite app_length in Hc. simpl in *. lia.
+Qed.
+
+Lemma claim_coupled_len coupling : forall pools masks w acc pools' acc',
+  length masks = length coupling ->
+  claim_coupled pools coupling masks w acc = Ok (pools', acc') -> (length acc' = length acc + length coupling)%nat.
+Proof.
+  induction coupling as [|e rest IH]; intros pools masks w acc pools' acc' Hl Hc; simpl in Hc.
+  - inversion Hc; subst. simpl. lia.
+  - destruct masks as [|m masks]; [simpl in Hl; discriminate|].
+    destruct (get_at pools (e_res e)) as [p| |] eqn:Eg; simpl in Hc; try discriminate.
+    unfold checked in Hc. destruct (claim_with_group_mask p (e_res e) (e_req e) m (frac_wit w (e_res e))) as [[p' ra]| |]; simpl in Hc; try discriminate.
+    destruct (claim_ok p p' (e_res e) (e_req e) ra) eqn:Eok; try discriminate.
+    apply IH in Hc; [|simpl in Hl; lia]. rewrite app_length in Hc. simpl in *. lia.
+Qed.
+
+Lemma solver_rows_len free entries : forall rows, solver_rows free entries = Ok rows -> length rows = length entries.
+Proof.
+  induction entries as [|e rest IH]; intros rows H; simpl in H.
+  - inversion H; auto.
+  - destruct (e_req e); try discriminate. destruct (get_at free (e_res e)); simpl in H; try discriminate.
+    destruct (solver_rows free rest) as [rows'| |]; simpl in H; try discriminate.
+    destruct (split amount). inversion H; subst. simpl. f_equal. auto.
+Qed.
+
+Lemma masks_feasible_len rows : forall masks, masks_feasible rows masks = true -> length masks = length rows.
+Proof.
+  induction rows as [|[[per u] f] rows IH]; intros [|m masks] H; simpl in H; try discriminate; auto.
+  apply andb_true_iff in H. destruct H as [_ H]. simpl. f_equal. auto.
+Qed.
+
+Lemma group_solver_len free entries ws tie ans masks o :
+  group_solver free entries ws tie ans = Ok (Some (masks, o)) -> length masks = length entries.
+Proof.
+  unfold group_solver. intros H.
+  destruct (solver_rows free entries) as [rows| |] eqn:Er; simpl in H; try discriminate.
+  destruct (weights_objective entries _ ws []); simpl in H; try discriminate.
+  destruct ans as [ms|].
+  - destruct (masks_feasible rows ms) eqn:Ef; try discriminate.
+    destruct (weights_objective entries _ ws ms); simpl in H; try discriminate.
+    inversion H; subst. rewrite (masks_feasible_len _ _ Ef). eapply solver_rows_len; eauto.
+  - destruct (masks_feasible rows _); discriminate.
+Qed.
+
+Lemma claim_resources_len a rq w pools' al : claim_resources a rq w = Ok (pools', al) -> length al = length rq.
+Proof.
+  unfold claim_resources. intros Hc.
+  destruct (claim_direct (a_pools a) rq w [] []) as [[[pools acc] coupling]| |] eqn:Ed; simpl in Hc; try discriminate.
+  apply claim_direct_len in Ed. simpl in Ed.
+  destruct coupling as [|e coupling].
+  - inversion Hc; subst. simpl in Ed. lia.
+  - destruct (group_solver (a_free a) (e :: coupling) (a_weights a) true (w_mask w)) as [[[masks obj]|]| |] eqn:Eg; cbn [bind] in Hc; try discriminate.
+    destruct (claim_coupled pools (e :: coupling) masks w acc) as [[pools2 acc2]| |] eqn:Ec; cbn [bind] in Hc; try discriminate.
+    inversion Hc; subst. apply group_solver_len in Eg. apply claim_coupled_len in Ec; auto.
+    rewrite (Permutation_length (isort_perm ralloc_le acc2)). lia.
+Qed.
+
+(** C04_exact_amount: every grant consists of exactly one resource allocation per entry of the request,
+    each with exactly the requested amount (the full size for `all`), whole indices followed by at most one
+    fractional index whose parts add up to the amount (no indices for a sum resource). *)
+Theorem exact_amount_thm d s0 ops s rq w s' al :
+  init d = Ok s0 -> Forall valid_op ops -> run s0 ops = Ok s -> NoDup (map e_res rq) ->
+  step s (OAlloc rq w) = Ok (s', OutGrant al) ->
+  exact_amount_set_ok (worker_pools s0) rq al = true.
+Proof.
+  intros Hi Hv Hr Hnd Hs.
+  assert (HF : FullInv (a_pools (s_alloc s0)) s) by (eapply run_full; [apply (init_full d); auto | eauto | eauto]).
+  destruct HF as [HI HW]. simpl in Hs. unfold try_allocate in Hs.
+  destruct (has_resources (s_alloc s) rq w) as [[ok yard]| |]; simpl in Hs; try discriminate.
+  destruct ok; simpl in Hs; [|discriminate].
+  destruct (claim_resources _ rq w) as [[pools al']| |] eqn:Ec; simpl in Hs; try discriminate.
+  destruct (cf_remove (a_free (s_alloc s)) al') as [free'| |] eqn:Ef; simpl in Hs; try discriminate.
+  inversion Hs; subst.
+  destruct (claim_resources_full (a_pools (s_alloc s0)) (mkAllocator (a_pools (s_alloc s)) (a_free (s_alloc s)) (a_weights (s_alloc s)) yard (a_all (s_alloc s))) (s_live s) rq w pools al free') as [A B]; auto.
+  unfold exact_amount_set_ok, worker_pools. apply andb_true_iff. split.
+  - apply N.eqb_eq. unfold len. f_equal. eapply claim_resources_len; eauto.
+  - apply forallb_forall. intros ra Hin. rewrite Forall_forall in B. destruct (B ra Hin) as [_ (e & He & Hx)].
+    apply existsb_exists. exists e. auto.
 Qed.
